@@ -605,3 +605,18 @@ def v13(ctx):
 
 
 RULES.append(v13)
+
+
+@rule("V14", doc="every child of a candidate e-node is matched against its child pattern: no iteration of the child loop of the node matcher goes on to the next child without the recursive ematch_impl (C04.M3 every-child-matched) — a ground-sub-pattern fast path that compares class ids only leaves the child's slot arguments unconstrained, and a reported match is not an instance")
+def v14(ctx):
+    from . import c04
+    crate = ctx.lib()
+    b0, hosted = c04.node_matcher(crate)
+    b = mir.inline_view(crate, b0, keep=c04.MATCHER_ANCHORS)
+    zl = [l for l in C.iterator_loops(b) if role_mentions_call(l[1], "zip") and role_mentions_call(l[1], "applied_id_occurrences")]
+    if len(zl) != 1:
+        raise mir.AnchorMissing("the child loop (zip of the node's children with the child patterns) of the node matcher", "found %d" % len(zl))
+    c04.every_child_matched(ctx, crate, b, zl[0])
+
+
+RULES.append(v14)
